@@ -267,17 +267,19 @@ SID_TAMPERS = ["flip-id0", "flip-idN", "trunc-id", "cache-trunc", "cache-evict"]
 
 def res_harness_case(h):
     steps = []
+    ca = 1
     for st in h["steps"]:
         if st["op"] == "epoch":
             e = st["sv"]
+            ca = e["ca"]
             steps.append({"op": "epoch", "sv": {"min": 0, "max": e["max"], "suites": e["suites"], "prefer": True,
                                                   "cert": "rsa", "key": e["key"], "tickets": e["tickets"],
-                                                  "cache": e["cache"], "auth": e["auth"], "rule": _hrule(e["rule"])}})
+                                                  "cache": e["cache"], "auth": e["auth"], "rule": _hrule(e["rule"]), "ca": ca}})
         else:
             c = st["cl"]
             steps.append({"op": "conn", "offer": st["offer"], "tamper": st["tamper"],
                           "cl": {"kind": c["kind"], "min": 10, "max": c["max"], "suites": c["suites"], "ecc": "ok",
-                                 "sni": SNI[c["sni"]], "cert": c["cert"], "noticket": c["noticket"]}})
+                                 "sni": SNI[c["sni"]], "cert": c["cert"], "ca": ca, "noticket": c["noticket"]}})
     return {"id": h["id"], "steps": steps}
 
 
@@ -300,7 +302,7 @@ def res_sample_histories(ctx, num, thorough, stream=0):
     def epoch():
         return {"key": rnd.choice([1, 1, 2]), "tickets": rnd.random() < 0.8, "cache": rnd.choice([0, 1, 1, 2]),
                 "max": rnd.choice(sv_max), "suites": rnd.choice(sv_suites), "auth": rnd.choice(["none", "none", "request", "require"]),
-                "rule": rule()}
+                "rule": rule(), "ca": rnd.choice([1, 1, 2])}
 
     out = []
     for i in range(num):
@@ -312,13 +314,13 @@ def res_sample_histories(ctx, num, thorough, stream=0):
         for k in range(rnd.randint(2, 4)):
             if have_conn and rnd.random() < 0.35 and steps[-1]["op"] != "epoch":
                 ne = dict(e)
-                for d in rnd.sample(["key", "tickets", "cache", "max", "suites", "auth", "rule", "rule"], rnd.choice([1, 1, 2])):
+                for d in rnd.sample(["key", "tickets", "cache", "max", "suites", "auth", "rule", "rule", "ca", "ca"], rnd.choice([1, 1, 2])):
                     ne[d] = epoch()[d]
                 e = ne
                 steps.append({"op": "epoch", "sv": e})
                 continue
             cl = {"kind": kind, "max": rnd.choice(cl_max + [12]), "suites": rnd.choice(go_suites if kind == "go" else raw_suites),
-                  "cert": rnd.random() < 0.6, "noticket": noticket, "sni": rnd.choice(["a", "a", "b"])}
+                  "cert": rnd.choice(["none", "A", "A", "A", "B", "fake"]), "noticket": noticket, "sni": rnd.choice(["a", "a", "b"])}
             offer = "saved" if (have_conn and rnd.random() < 0.85) else "none"
             tamper = "none"
             if offer == "saved" and rnd.random() < 0.45:
@@ -380,7 +382,7 @@ def judge_res(ctx, h, obs_steps):
                 rep(i, "resumed-params/master", "resumed connection does not keep the original master secret")
             if P["needcert"] and o.get("s_peer", 0) == 0:
                 rep(i, "clientauth-bypassed/resumed", "resumed although a client certificate is required and the session has none")
-            elif (o.get("s_peer", 0) > 0) != s["cert"]:
+            elif (o.get("s_peer", 0) > 0) != (s["cert"] != "none"):
                 rep(i, "resumed-params/peer-cert", "client-certificate state of the resumed connection differs from the session's")
             if o.get("echo") != "ok":
                 rep(i, "echo/resumed", "application data did not flow intact on the resumed connection: %s" % o.get("echo"))
@@ -391,7 +393,8 @@ def judge_res(ctx, h, obs_steps):
                 if c_ok or s_ok:
                     rep(i, "completed-though-must-refuse/%s" % F["why"], "full handshake completed although it must be refused")
             elif not (c_ok and s_ok):
-                if F["refuse"] == "no":
+                # a stored certificate that no longer verifies may abort the connection (as crypto/tls does)
+                if F["refuse"] == "no" and not P["mayabort"]:
                     rep(i, "conn-failed/%s/%s" % (how, _err_class(o)),
                         "connection failed where an ordinary full handshake must succeed")
             else:
@@ -420,7 +423,7 @@ def judge_res(ctx, h, obs_steps):
             newo = o.get("got_ticket") or o.get("got_sid")
             if bool(newm) != bool(newo) or (newm and (
                     ms["kind"] != ("ticket" if o.get("got_ticket") else "sid") or ms["vers"] != o["s_vers"] or
-                    ms["suite"] != o["s_suite"] or ms["cert"] != (o.get("s_peer", 0) > 0))):
+                    ms["suite"] != o["s_suite"] or (ms["cert"] != "none") != (o.get("s_peer", 0) > 0))):
                 drift.append("session kept after step %d differs from the model (%s vs %s/%s/%s)" % (
                     i, ms, o.get("got_ticket"), o.get("got_sid"), o.get("s_suite")))
                 break
